@@ -107,8 +107,8 @@ def parseRange (line : List Char) : Outcome CharRange :=
         | _ :: r1 :: _ =>
           match parseHexUsize (trimStart0x r1) with
           | none => .err
-          | some e => if e = 18446744073709551615 then .panic else .ok (e + 1)
-        | _ => if start = 18446744073709551615 then .panic else .ok (start + 1)
+          | some e => if e = 18446744073709551615 then .err else .ok (e + 1)
+        | _ => if start = 18446744073709551615 then .err else .ok (start + 1)
       match stopO with
       | .err => .err
       | .panic => .panic
